@@ -18,7 +18,7 @@ structure MState where
   ledgers : String → State
 
 /-- One write (possibly with an injected fault) on ledger `l`. -/
-def stepM (strict : Bool) (m : MState) (l : String) (op : Op) (f : Option Fault := none) (cf : Bool := false) : MState × Resp :=
+def stepM (strict : Bool) (m : MState) (l : String) (op : Op) (f : Faults := []) (cf : Bool := false) : MState × Resp :=
   let r := Ledger.Ctrl.stepF strict (m.ledgers l) op f cf
   ({ ledgers := fun x => if x = l then r.1 else m.ledgers x }, r.2)
 
